@@ -776,8 +776,10 @@ def run(tape) -> Outcome:
                 gc.collect()
                 ops_dec.append(["gc"])
             elif k == 8:
-                # a new overlay of the (already used) first environment replaces / becomes the second environment
-                ov = env0.overlay()
+                # a new overlay of the (already used) first environment replaces / becomes the second environment;
+                # for file-system loaders it may get a loader OBJECT of its own over the same directories (creating
+                # it must leave the first environment's cache alone)
+                ov = env0.overlay(loader=st.make_loader()) if (st.is_fs and tape.draw(2, "m") == 1) else env0.overlay()
                 if len(envs) > 1:
                     envs[1], models[1] = ov, Model(size, env0.auto_reload, kind)  # an overlay copies the CURRENT setting
                 else:
